@@ -33,16 +33,14 @@ Is(e, k) ==
     [] e[1] = "join"  -> \E i \in 1..Len(e[2]) : Is(e[2][i], k)
 
 (* errors.As(err, &redirectError): first redirect in traversal order *)
-RECURSIVE RedirCode(_)
+RECURSIVE RedirCode(_), FirstRedir(_, _)
 RedirCode(e) ==
   CASE e[1] = "leaf"  -> 0
     [] e[1] = "redir" -> e[2]
     [] e[1] = "wrap"  -> RedirCode(e[2])
-    [] OTHER ->
-         LET RECURSIVE First(_)
-             First(i) == IF i > Len(e[2]) THEN 0
-                         ELSE IF RedirCode(e[2][i]) # 0 THEN RedirCode(e[2][i]) ELSE First(i + 1)
-         IN First(1)
+    [] OTHER -> FirstRedir(e[2], 1)
+FirstRedir(es, i) == IF i > Len(es) THEN 0
+                     ELSE IF RedirCode(es[i]) # 0 THEN RedirCode(es[i]) ELSE FirstRedir(es, i + 1)
 
 (* The ranked classification of the property statement (and of both switch  *)
 (* statements in the code).                                                 *)
